@@ -120,7 +120,7 @@ func c19Client(c *Ctx, r *Report, ci *clientInfo, control bool) map[string]bool 
 		same := describeAV(h.args[0]) == describeAV(ci.write.args[0])
 		rep("R19.1", same, "BeforeWrite receives the very slice that is written to the transport", describeAV(h.args[0])+" vs "+describeAV(ci.write.args[0]), "beforewrite-arg", posOfCall(c, h))
 		g := guardOf(h)
-		rep("R19.1", g != nil && g.Dominates(ci.write.instr.Block()) && g != ci.write.instr.Block() || (g != nil && g.Dominates(ci.write.instr.Block())), "the BeforeWrite guard is evaluated before the transport Write on every path", "", "beforewrite-order", posOfCall(c, h))
+		rep("R19.1", g != nil && g.Dominates(ci.write.instr.Block()) && g != ci.write.instr.Block(), "the BeforeWrite guard is evaluated before the transport Write on every path", "", "beforewrite-order", posOfCall(c, h))
 		transparent(h, "BeforeWrite")
 	}
 	// ---- R19.2 ----
@@ -167,7 +167,7 @@ func c19Client(c *Ctx, r *Report, ci *clientInfo, control bool) map[string]bool 
 		}
 		rep("R19.3", doRes != nil && describeAV(p.args[0]) == describeAV(doRes), "the parsed frame is do()'s result (the copy of everything read)", describeAV(p.args[0]), "parse-arg", posOfCall(c, p))
 		g := guardOf(h)
-		rep("R19.3", g != nil && g.Dominates(p.instr.Block()), "the BeforeParse guard is evaluated before the parse on every path", "", "beforeparse-order", pos)
+		rep("R19.3", g != nil && g.Dominates(p.instr.Block()) && g != p.instr.Block(), "the BeforeParse guard is evaluated before the parse on every path", "", "beforeparse-order", pos)
 		transparent(h, "BeforeParse")
 	}
 	return fired
